@@ -443,6 +443,64 @@ fn render(scene: &Scene, ibs: usize, parts: &[usize], channels: u16) -> Result<V
 	Ok(out)
 }
 
+/// a sound that is silent for a while keeps its place: a static sound (44100 Hz on the 48000 Hz device at rate 0.75, so every
+/// output frame advances the source by a fraction of a frame) plays at -60 dB for 9600 frames, is set to 0 dB at frame 9600 (a
+/// multiple of every callback size used) and goes on; what it plays afterwards does not depend on the buffer sizes in force while
+/// it was silent. (The buffer in which the volume changes ramps over its own length: frames 9600..9856 are not compared.)
+fn muted_playhead(ctx: &mut Ctx) {
+	use kira::{Decibels, PlaybackRate, Tween};
+	let shapes: [(usize, usize); 7] = [(1, 1), (128, 128), (64, 64), (32, 96), (128, 100), (16, 48), (128, 300)];
+	for rate in [0.75f64, 1.0, 1.3] {
+		let mut reference: Option<Vec<f32>> = None;
+		for (ibs, cb) in shapes {
+			ctx.evals += 1;
+			let mut m = rig::manager(48000, ibs, rig::caps(2), MainTrackBuilder::new());
+			let data = rig::static_data(44100, (0..3000).map(|i| Frame::new(noise(i), noise(i + 5))).collect()).loop_region(Region::from(..)).playback_rate(PlaybackRate(rate)).volume(Decibels::SILENCE);
+			let mut h = m.play(data).unwrap();
+			let mut out: Vec<f32> = vec![];
+			let mut failed = None;
+			let mut done = 0usize;
+			while done < 19200 {
+				if done == 9600 {
+					h.set_volume(Decibels::IDENTITY, Tween { duration: Duration::ZERO, ..Default::default() });
+				}
+				let mut buf = vec![0.0f32; 2 * cb];
+				let rep = rig::callback(&mut m, &mut buf, cb, 2);
+				if !rep.ok() {
+					failed = Some(format!("callback monitor {:?}", rep));
+					break;
+				}
+				out.extend(buf);
+				done += cb;
+			}
+			let desc = format!("3000-frame looping static sound at 44100 Hz, playback rate {}, device 48000 Hz, volume -60 dB; set_volume(0 dB, instant) before frame 9600; internal buffer {}, callbacks of {} frames", rate, ibs, cb);
+			if let Some(f) = failed {
+				ctx.fail(format!("{} :: silent sound keeps its place", f), desc);
+				continue;
+			}
+			let window = 2 * 9856..2 * 19200;
+			match &reference {
+				None => {
+					if out[window.clone()].iter().all(|v| *v == 0.0) {
+						ctx.fail("machinery: the unmuted sound is not heard :: silent sound keeps its place", desc);
+					}
+					reference = Some(out);
+				}
+				Some(r) => {
+					if let Some(i) = window.clone().find(|&i| (out[i] - r[i]).abs() > 1e-6) {
+						ctx.fail(
+							"output depends on the buffer sizes in force while a sound was silent (the sound lost its place) :: silent sound keeps its place".to_string(),
+							format!("{}: sample {} (frame {}) = {:e}, rendered with internal buffer 1 and one-frame callbacks it is {:e}", desc, i, i / 2, out[i], r[i]),
+						);
+					} else {
+						ctx.nontrivial_extra += 1;
+					}
+				}
+			}
+		}
+	}
+}
+
 /// a long streaming sound whose decoder keeps its 16384-frame ring topped up (before every callback it is given time for as
 /// many iterations as the callback will consume, and then some), rendered in large callbacks of several shapes: same audio
 fn huge_stream(ctx: &mut Ctx) {
@@ -539,6 +597,9 @@ impl Check for C11 {
 	}
 	fn run_case(&self, tier: Tier, idx: u64, ctx: &mut Ctx) {
 		if idx == 0 {
+			if let Err(p) = catch(|| muted_playhead(ctx)) {
+				ctx.fail(format!("panic: {} :: silent sound keeps its place", p), "");
+			}
 			if let Err(p) = catch(|| huge_stream(ctx)) {
 				ctx.fail(format!("panic: {} :: long stream, large callbacks", p), "");
 			}
